@@ -23,6 +23,9 @@ ITS = (4, 12, 8)          # iteration labels: not monotonic in row order
 TVALS = (0.5, 2.5, 1.5)
 TMIX = (2, 3.75, 2.5)     # hand-written time list mixing int and float
 VARS = ['gammadet', 'Ktrace', 'Hamiltonian', 'gdown4', '<custom>']
+# keys whose columns become *component inputs* of the per-step instance of a
+# later call (Momentumup3 is then assembled from the three columns)
+VARS_C = ['Momentumx', 'Momentumy', 'Momentumz', 'Momentumdown3']
 ESTS = ['max', 'mean', 'median', 'minabs', 'x0y0z1', '<customest>']
 KW = {'Lambda': 0.3, 'clear_cache_every_nbr_calc': 3}
 _STEPS = {}
@@ -192,7 +195,7 @@ def _run_case(task):
         if tkey == 'it+t' and int(data['it'][row]) != ITS[s]:
             bad.append(('row-mixed', 'it'))
         # (i) per-step fresh values
-        for v in VARS:
+        for v in dict.fromkeys(v for block in partition for v in block):
             name = 'custom' if v == '<custom>' else v
             if name not in data:
                 bad.append(('missing-column', name))
@@ -248,6 +251,8 @@ def main(tier):
     for nsteps in (1, 3):
         tasks.append((seed, nsteps, tuple(range(nsteps))[::-1], 'it',
                       parts[0], 'all-estimators'))
+    for part in ordered_partitions(VARS_C, 3):
+        tasks.append((seed, 3, (2, 0, 1), 'it', part, 'components'))
     results = runner.pmap(run_case, tasks, chunksize=4)
     nviol = 0
     for t, r in zip(tasks, results):
@@ -261,9 +266,10 @@ def main(tier):
                           {'task': [nsteps, list(perm), tkey,
                                     [list(x) for x in part], extra]})
         if r['final'] is not None and extra != 'all-estimators':
-            groups.setdefault((nsteps, tkey), []).append((r['final'], t))
+            groups.setdefault((nsteps, tkey, extra == 'components'),
+                              []).append((r['final'], t))
     # (v) every split (and every row order) gives the same final table
-    for (nsteps, tkey), lst in groups.items():
+    for (nsteps, tkey, _), lst in groups.items():
         ref_final, ref_t = lst[0]
         for fin, t in lst[1:]:
             if fin != ref_final:
